@@ -65,6 +65,16 @@ impl CacheAlignedAtomicU64 {
         self.0.fetch_add(value, ordering)
     }
 
+    /// Add, stopping at `u64::MAX`
+    #[inline]
+    fn saturating_add(&self, value: u64) {
+        let _ = self
+            .0
+            .fetch_update(Ordering::Relaxed, Ordering::Relaxed, |v| {
+                Some(v.saturating_add(value))
+            });
+    }
+
     #[inline]
     #[allow(dead_code)]
     fn fetch_sub(&self, value: u64, ordering: Ordering) -> u64 {
@@ -236,25 +246,50 @@ impl CacheStats {
             .max(other.max_memory_usage_bytes);
         self.updated_at_ms = current_time_ms();
 
-        // Weighted average for response times - avoid overflow
-        if self.get_count > 0 {
-            let total_get_time_nanos = (self.avg_get_time.as_nanos() as u64)
-                .saturating_mul(prev_get_count)
-                .saturating_add(
-                    (other.avg_get_time.as_nanos() as u64).saturating_mul(other.get_count),
-                );
-            self.avg_get_time = Duration::from_nanos(total_get_time_nanos / self.get_count);
-        }
-
-        if self.put_count > 0 {
-            let total_put_time_nanos = (self.avg_put_time.as_nanos() as u64)
-                .saturating_mul(prev_put_count)
-                .saturating_add(
-                    (other.avg_put_time.as_nanos() as u64).saturating_mul(other.put_count),
-                );
-            self.avg_put_time = Duration::from_nanos(total_put_time_nanos / self.put_count);
-        }
+        // Weighted average for response times (128-bit nanoseconds: nothing is cut or saturates)
+        self.avg_get_time = weighted_avg(
+            self.avg_get_time,
+            prev_get_count,
+            other.avg_get_time,
+            other.get_count,
+        );
+        self.avg_put_time = weighted_avg(
+            self.avg_put_time,
+            prev_put_count,
+            other.avg_put_time,
+            other.put_count,
+        );
     }
+}
+
+/// Nanoseconds of a duration, stopping at `u64::MAX`
+#[cfg(not(target_arch = "wasm32"))]
+#[inline]
+fn clamped_nanos(duration: Duration) -> u64 {
+    u64::try_from(duration.as_nanos()).unwrap_or(u64::MAX)
+}
+
+/// Count-weighted average of two average durations; `a` when neither side counted anything
+fn weighted_avg(a: Duration, n: u64, b: Duration, m: u64) -> Duration {
+    let (an, bn) = (a.as_nanos(), b.as_nanos());
+    let count = u128::from(n) + u128::from(m);
+    if count == 0 {
+        return a;
+    }
+    let total = an
+        .saturating_mul(u128::from(n))
+        .saturating_add(bn.saturating_mul(u128::from(m)));
+    // a weighted average lies between the averages of the sides that counted something
+    let (lo, hi) = match (n, m) {
+        (0, _) => (bn, bn),
+        (_, 0) => (an, an),
+        _ => (an.min(bn), an.max(bn)),
+    };
+    let nanos = (total / count).clamp(lo, hi);
+    Duration::new(
+        (nanos / 1_000_000_000) as u64,
+        (nanos % 1_000_000_000) as u32,
+    )
 }
 
 impl Default for CacheStats {
@@ -337,11 +372,10 @@ impl AtomicCacheMetrics {
             self.miss_count.fetch_add(1, Ordering::Relaxed);
         }
 
-        // Only update timing if duration is meaningful (> 1µs)
-        let duration_nanos = duration.as_nanos() as u64;
+        // Only update timing if duration is meaningful (> 1µs); the total never wraps
+        let duration_nanos = clamped_nanos(duration);
         if duration_nanos > 1000 {
-            self.total_get_time_nanos
-                .fetch_add(duration_nanos, Ordering::Relaxed);
+            self.total_get_time_nanos.saturating_add(duration_nanos);
         }
     }
 
@@ -361,11 +395,10 @@ impl AtomicCacheMetrics {
         self.max_memory_usage_bytes
             .fetch_max(new_memory, Ordering::Relaxed);
 
-        // Only update timing if duration is meaningful
-        let duration_nanos = duration.as_nanos() as u64;
+        // Only update timing if duration is meaningful; the total never wraps
+        let duration_nanos = clamped_nanos(duration);
         if duration_nanos > 1000 {
-            self.total_put_time_nanos
-                .fetch_add(duration_nanos, Ordering::Relaxed);
+            self.total_put_time_nanos.saturating_add(duration_nanos);
         }
     }
 
@@ -413,7 +446,7 @@ impl AtomicCacheMetrics {
                 total_hits += 1;
             }
 
-            let duration_nanos = duration.as_nanos() as u64;
+            let duration_nanos = clamped_nanos(duration);
             if duration_nanos > 1000 {
                 total_time_nanos = total_time_nanos.saturating_add(duration_nanos);
             }
@@ -426,8 +459,7 @@ impl AtomicCacheMetrics {
             .fetch_add(total_gets - total_hits, Ordering::Relaxed);
 
         if total_time_nanos > 0 {
-            self.total_get_time_nanos
-                .fetch_add(total_time_nanos, Ordering::Relaxed);
+            self.total_get_time_nanos.saturating_add(total_time_nanos);
         }
     }
 
